@@ -248,6 +248,29 @@ class World:
             torch.manual_seed(self.seed)
             hd.fit(dv, n_paths=n, n_epochs=1, optimizer=torch.optim.SGD(params, lr=0.05), validation=False, verbose=False)
             return None
+        if op == "Abort":
+            # compute_pl with a model that raises half-way (at its second call, or at its only call when all steps are evaluated at
+            # once) - injected through a forward pre-hook, torch's public API; the exception reaches the caller
+            calls = {"n": 0}
+            two = hd.inputs.is_state_dependent()
+
+            class Fault(Exception):
+                pass
+
+            def boom(module, args):
+                calls["n"] += 1
+                if calls["n"] >= (2 if two else 1):
+                    raise Fault()
+            handle = hd.model.register_forward_pre_hook(boom)
+            try:
+                hd.compute_pl(dv)
+            except Fault:
+                pass
+            else:
+                raise MachineryError("the injected fault did not reach the caller of compute_pl")
+            finally:
+                handle.remove()
+            return None
         if op == "Payoff":
             return dv.payoff()
         if op == "ListedSpot":
@@ -340,6 +363,9 @@ def replay_history(ctx: Ctx, hist: List[Dict[str, Any]], kind: str, seed: int) -
         if op == "AddClause" and after != before:
             ctx.violation("purity:AddClause", "add_clause changed a simulated buffer", detail)
             return
+        if op == "Abort" and (after != before or pafter != pbefore):
+            ctx.violation("purity:Abort", "a computation that raised half-way changed a simulated buffer or a parameter", detail)
+            return
         if op in ("Relist", "Restrike", "SetCost") and after != before:
             ctx.violation(f"purity:{op}", f"{op} changed a simulated buffer", detail)
             return
@@ -399,7 +425,7 @@ def record_sessions(seed: int, n_traces: int, length: int) -> List[Dict[str, Any
                 op = rng.choice(["Simulate", "ComputeLoss", "Price"])
             else:
                 op = rng.choice(["Simulate", "Payoff", "Features", "ListedSpot", "ComputeHedge", "ComputeHedge", "ComputePortfolio", "ComputePL", "ComputePL", "ComputeLoss", "Price",
-                                 "AddClause", "Fit", "Relist", "Restrike", "SetCost"])
+                                 "AddClause", "Fit", "Relist", "Restrike", "SetCost", "Abort"])
             if op == "AddClause" and w.nclauses[d] >= 2:
                 op = "Payoff"
             if op == "Relist" and w.nlist[d] >= 2:
@@ -410,7 +436,7 @@ def record_sessions(seed: int, n_traces: int, length: int) -> List[Dict[str, Any
                 op = "ComputePL"             # (the Whalley-Wilmott model of this world is built from d1: its band reads p1's cost rate whatever it hedges)
             if op == "Fit" and kind == "shared-module-prev":
                 op = "ComputePL"             # the two hedgers of this kind share trainable parameters BY CONSTRUCTION: fit() of one is fit() of both
-            h = rng.choice(["h1", "h1", "h2"]) if op.startswith("Compute") or op in ("Price", "Fit") else "-"
+            h = rng.choice(["h1", "h1", "h2"]) if op.startswith("Compute") or op in ("Price", "Fit", "Abort") else "-"
             n = rng.choice([2, 3]) if op in ("Simulate", "ComputeLoss", "Price", "Fit") else 0
             pv0 = w.pversions()
             try:
@@ -425,7 +451,7 @@ def record_sessions(seed: int, n_traces: int, length: int) -> List[Dict[str, Any
             if op in ("Simulate", "ComputeLoss", "Price", "Fit"):
                 simulated.add(ul)
             events.append({"op": op, "h": h, "d": d, "n": n, "ver": w.versions(), "npaths": w.npaths(), "cv": w.nclauses[d], "lv": w.nlist[d], "kv": w.nstrike[d], "uv": w.ncost[ul], "pvs": w.pversions(),
-                           "res": 0 if (res is None or op in ("ComputeLoss", "Price", "Fit", "AddClause", "Relist", "Restrike", "SetCost")) else w.rid(res)})
+                           "res": 0 if (res is None or op in ("ComputeLoss", "Price", "Fit", "AddClause", "Relist", "Restrike", "SetCost", "Abort")) else w.rid(res)})
         traces.append({"kind": kind, "events": events})
     return traces
 
@@ -855,7 +881,7 @@ def stepping_order(ctx: Ctx) -> None:
 def check(ctx: Ctx) -> None:
     warnings.filterwarnings("ignore")
     ex = ctx.tlc("MC_Session", "MC_Session_q_d3.cfg" if ctx.tier == "quick" else "MC_Session_t_d4.cfg", workers=8)
-    for a in ("Simulate", "Read", "Compute", "SimCompute", "AddClause", "Fit", "Relist", "Restrike", "SetCost"):
+    for a in ("Simulate", "Read", "Compute", "SimCompute", "AddClause", "Fit", "Relist", "Restrike", "SetCost", "Abort"):
         if ex.actions.get(a, [0, 0])[1] == 0:
             raise MachineryError(f"Session.tla: action {a} never taken")
     sim = ctx.tlc("MC_Session", "MC_Session_sim.cfg", workers=4, simulate=f"num={150 if ctx.tier == 'quick' else 1500}", depth=10, seed=ctx.seed + 5)
@@ -916,7 +942,7 @@ def check(ctx: Ctx) -> None:
         for e_ in t_["events"]:
             mix[e_["op"]] = mix.get(e_["op"], 0) + 1
     ctx.sections["recorded_session_operations"] = mix
-    if sum(1 for k_ in mix if k_ in READ_ONLY) < 4 or not mix.get("Fit") or not mix.get("AddClause") or not mix.get("Relist") or not mix.get("Restrike") or not mix.get("SetCost"):
+    if sum(1 for k_ in mix if k_ in READ_ONLY) < 4 or not mix.get("Fit") or not mix.get("AddClause") or not mix.get("Relist") or not mix.get("Restrike") or not mix.get("SetCost") or not mix.get("Abort"):
         raise MachineryError(f"recorded sessions do not exercise the session machine: {mix}")
     for i, reached, need in validate(ctx, traces, "recorded"):
         ctx.traces_validated += 1
